@@ -109,6 +109,9 @@ ssize_t sim_write(int fd, const void *buf, size_t n)
 
 /* ----------------------------------------------------------------- ledger */
 static struct sim_ledger L;
+/* counters are bumped with relaxed atomics from uninstrumented code: invisible to TSan, exact with real threads */
+#define INC(f) __atomic_fetch_add(&L.f, 1, __ATOMIC_RELAXED)
+#define DEC(f) __atomic_fetch_sub(&L.f, 1, __ATOMIC_RELAXED)
 static char tmpl_log[64][256];
 static size_t ntmpl;
 
@@ -127,33 +130,33 @@ int sim_open(const char *path, int flags, ...)
 	mode_t mode = 0;
 	if (flags & O_CREAT) { va_list ap; va_start(ap, flags); mode = va_arg(ap, mode_t); va_end(ap); }
 	int fd = open(path, flags, mode);
-	if (fd >= 0) { L.opens++; L.live_fds++; }
+	if (fd >= 0) { INC(opens); INC(live_fds); }
 	return fd;
 }
 int sim_close(int fd)
 {
 	int r = close(fd);
-	if (r == 0) { L.closes++; L.live_fds--; }
+	if (r == 0) { INC(closes); DEC(live_fds); }
 	return r;
 }
 int sim_dup(int fd)
 {
 	int r = dup(fd);
-	if (r >= 0) { L.dups++; L.live_fds++; }
+	if (r >= 0) { INC(dups); INC(live_fds); }
 	return r;
 }
 int sim_mkstemp(char *tmpl)
 {
-	if (ntmpl < 64) { strncpy(tmpl_log[ntmpl], tmpl, 255); tmpl_log[ntmpl][255] = 0; }
-	ntmpl++;
+	size_t slot = __atomic_fetch_add(&ntmpl, 1, __ATOMIC_RELAXED);
+	if (slot < 64) { size_t i = 0; for (; i < 255 && tmpl[i]; i++) tmpl_log[slot][i] = tmpl[i]; tmpl_log[slot][i] = 0; }	/* no libc call: TSan intercepts strncpy */
 	int fd = mkstemp(tmpl);
-	if (fd >= 0) { L.mkstemps++; L.live_fds++; L.live_tmp++; }
+	if (fd >= 0) { INC(mkstemps); INC(live_fds); INC(live_tmp); }
 	return fd;
 }
 int sim_unlink(const char *path)
 {
 	int r = unlink(path);
-	if (r == 0) { L.unlinks++; L.live_tmp--; }
+	if (r == 0) { INC(unlinks); DEC(live_tmp); }
 	return r;
 }
 
@@ -165,7 +168,7 @@ void *sim_mmap(void *addr, size_t len, int prot, int flags, int fd, off_t off)
 {
 	if (!exact_heap) {
 		void *p = mmap(addr, len, prot, flags, fd, off);
-		if (p != MAP_FAILED) { L.mmaps++; L.live_maps++; }
+		if (p != MAP_FAILED) { INC(mmaps); INC(live_maps); }
 		return p;
 	}
 	/* exact-size heap copy: any access before/after "the file's bytes" hits an ASan red zone */
@@ -178,12 +181,12 @@ void *sim_mmap(void *addr, size_t len, int prot, int flags, int fd, off_t off)
 		got += (size_t)r;
 	}
 	if (got < len) memset(p + got, 0, len - got);
-	L.mmaps++; L.live_maps++;
+	INC(mmaps); INC(live_maps);
 	return p;
 }
 int sim_munmap(void *addr, size_t len)
 {
-	L.munmaps++; L.live_maps--;
+	INC(munmaps); DEC(live_maps);
 	if (!exact_heap) return munmap(addr, len);
 	free(addr);
 	return 0;
